@@ -16,7 +16,7 @@ pub struct Case {
     pub cfg: SvgCfg,
 }
 
-fn to_json(c: &Case) -> Value {
+pub fn to_json(c: &Case) -> Value {
     json!({"version": c.version, "svg": c.cfg.to_json()})
 }
 
